@@ -169,6 +169,9 @@ impl Property for C20 {
             cfg.fcnt_up0 = 0xFFFF_FFFE;
         }
         let nb = cfg.frontend == Frontend::Nb;
+        if nb && !mutation_mode && r.chance(1, 3) {
+            cfg.restore_into_used = true;
+        }
         let mut ops = Vec::new();
         if cfg.otaa {
             let mut t = Txn::default();
